@@ -120,6 +120,10 @@ def gen(ctx):
     cases.append(dict(n=N, mode='r', acts=[['enterrw'], ['write', 4, -9], ['shrink', 2, N - 2], ['write', 5, -3], ['read', 5],
                                           ['start'] + PARAMS[0], ['advance', 0], ['shrink', 1, N - 3], ['write', N - 4, -4], ['read', N - 4],
                                           ['exit'], ['advance', 0], ['close', 0]], probe=[4, 5, N - 4]))
+    # an array WITHOUT elements is opened in a context and data are appended inside it: the stand-in used for
+    # empty arrays must be replaced by a real map
+    cases.append(dict(n=0, acts=[['enter'], ['grow', 3, 3], ['read', 2], ['write', 1, -5], ['read', 1], ['start', 2, None, None, None, True],
+                                 ['advance', 0], ['grow', 1, 4], ['exit'], ['advance', 0], ['advance', 0], ['read', 3]], probe=[1]))
     # an array without elements: every generator raises at its first next(), every element access raises
     for _ in range(6 if ctx.quick else 60):
         acts, depth, ng = [], 0, 0
